@@ -15,6 +15,19 @@ CLAIMED = {
                 "through convert_type_fundamental_or_array, and store/load/UNSAFE_sandboxed through the wrappers on an LP32 model backend: "
                 "abort iff unrepresentable, else value preserved - for all source values (no sampling).",
             "bool destination and float/enum are outside the claim.", "DESIGN.md 4/C06"),
+    "C03": (MC, "Inductive step over 31 pointer-producing operations (guest representations arriving as results/arguments, loads of pointer cells, "
+                "array elements and struct fields, + - [] &[] ++ --, & * ->, sandbox casts, opaque round trip, malloc_in_sandbox with an arbitrary "
+                "allocator result, app_pointer, UNSAFE_accept_pointer): every input pointer only assumed null-or-inside, output proved null-or-inside "
+                "or the path aborts, for all bases, pointers, representations, indices.",
+            "One known finding (object straddling the region end) is excluded by predicate and reported as KNOWN-FINDING.", "DESIGN.md 4/C03"),
+    "C16": (MC, "Each rlbox operator expression (18 binary x 8 wrapper combinations, unary, compound assignment, ++/--) is compared by the solver with "
+                "the same expression on plain values compiled in the same TU: equal value, C++ result type (is_same flag), operand update, and "
+                "abort only when a sandbox-resident operand cannot hold the plain result - for all operand values.",
+            "Integer operands only; UB inputs of the plain expression carry no obligation.", "DESIGN.md 4/C16"),
+    "C17": (MC, "a[i] on tainted<T[N]> (application memory) and tainted_volatile<T[N]> (sandbox memory) for 4 element types x lengths x index types "
+                "and two-level arrays: aborts iff i<0 or i>=N (mathematical), else designates exactly start+i*stride of that memory's layout; no access "
+                "outside the array object - for every index value.",
+            "", "DESIGN.md 4/C17"),
     "C05": (MC, "p+n, p-n, +=, -=, ++/-- (pre/post), p[n], &p[n] for 8 pointee types x integer index types (plain, tainted, tainted_volatile) on LP32/LP16 "
                 "model backends with symbolic region base, pointer and full-width index: returns iff the exact 128-bit address p+/-n*s_guest is inside "
                 "the region and then returns exactly it, else aborts; null aborts.",
